@@ -9,6 +9,7 @@ import json
 import os
 import shutil
 import subprocess
+import threading
 import sys
 import time
 from concurrent.futures import ThreadPoolExecutor
@@ -153,33 +154,35 @@ def collect_files(root, skip=()):
     return out
 
 
-def run_world(binfo, argv, plan_lines, sandbox, cwd=None, env=None, stdin_data=None,
-              cpu=60, wall=None, collect=True, skip=(), use_simrun=True, as_bytes=4 << 30,
-              keep_log=True):
-    """Execute one simulated world.  `sandbox` is a directory this call owns;
-    plan and log live beside it (not inside, so they never show up as
-    outputs)."""
+def run_world(binfo, argv, plan_lines, wdir, cwd=None, env=None, stdin_data=None,
+              cpu=60, wall=None, collect=True, skip=(), as_bytes=4 << 30, keep_log=True, envpad=0):
+    """Execute one simulated world.  `wdir` is a directory this call owns:
+    wdir/sb is the sandbox (the world's working directory and simulated
+    disk), wdir/plan and wdir/log sit beside it so they never show up as
+    outputs.  The environment handed to the world has a fixed size whatever
+    wdir is called (plan and log are named relative to the sandbox): the
+    initial stack position is part of the plan (envpad), not of the run."""
+    sandbox = os.path.join(wdir, "sb")
     os.makedirs(sandbox, exist_ok=True)
-    meta = sandbox.rstrip("/") + ".meta"
-    os.makedirs(meta, exist_ok=True)
-    plan_path = os.path.join(meta, "plan")
-    log_path = os.path.join(meta, "log")
+    plan_path = os.path.join(wdir, "plan")
+    log_path = os.path.join(wdir, "log")
     with open(plan_path, "w") as f:
         f.write("\n".join(plan_lines) + "\n")
     if os.path.exists(log_path):
         os.unlink(log_path)
+    cwd = cwd or sandbox
     e = dict(BASE_ENV)
     if env:
         e.update(env)
-    e["ALDORSIM_PLAN"] = plan_path
-    e["ALDORSIM_LOG"] = log_path
-    cmd = list(argv)
-    if use_simrun:
-        cmd = [binfo["simrun"], "--cpu", str(int(cpu)), "--as", str(int(as_bytes)), "--"] + cmd
+    e["ALDORSIM_PLAN"] = os.path.relpath(plan_path, cwd)
+    e["ALDORSIM_LOG"] = os.path.relpath(log_path, cwd)
+    if envpad:
+        e["ALDORSIM_PAD"] = "x" * envpad
+    cmd = [binfo["simrun"], "--cpu", str(int(cpu)), "--as", str(int(as_bytes)), "--"] + list(argv)
     r = WorldResult()
     t0 = time.time()
     try:
-        p = subprocess.run(cmd, cwd=cwd or sandbox, env=e, input=stdin_data if stdin_data is not None else b"",
+        p = subprocess.run(cmd, cwd=cwd, env=e, input=stdin_data if stdin_data is not None else b"",
                            stdout=subprocess.PIPE, stderr=subprocess.PIPE,
                            timeout=wall or (cpu * 3 + 30))
         r.rc = p.returncode
@@ -204,9 +207,8 @@ def run_world(binfo, argv, plan_lines, sandbox, cwd=None, env=None, stdin_data=N
     return r
 
 
-def cleanup_world(sandbox):
-    shutil.rmtree(sandbox, ignore_errors=True)
-    shutil.rmtree(sandbox.rstrip("/") + ".meta", ignore_errors=True)
+def cleanup_world(wdir):
+    shutil.rmtree(wdir, ignore_errors=True)
 
 
 def pmap(fn, items, nproc=None):
@@ -227,10 +229,13 @@ class Scratch:
         shutil.rmtree(self.root, ignore_errors=True)
         os.makedirs(self.root)
         self.n = 0
+        self.lock = threading.Lock()
 
     def new(self, name=None):
-        self.n += 1
-        return os.path.join(self.root, name or ("w%06d" % self.n))
+        with self.lock:
+            self.n += 1
+            n = self.n
+        return os.path.join(self.root, name or ("w%06d" % n))
 
     def close(self):
         shutil.rmtree(self.root, ignore_errors=True)
